@@ -34,6 +34,7 @@ KF_DECLWS = 'C20-xmldecl-whitespace'
 KF_STRAY = 'C20-xmldecl-stray-attribute'
 KF_VALUELESS = 'C20-meta-valueless-attribute'
 KF_RFC2231 = 'C20-meta-rfc2231-charset'
+KF_RELIT = 'C20-regex-literal-media-type'
 
 _silent = logging.getLogger('c20-silent')
 _silent.addHandler(logging.NullHandler())
@@ -267,7 +268,10 @@ class C20(Check):
 
     # -- generators: media types ------------------------------------------------------------------------
     def gen_classify(self, ctx, rng):
-        ws = [{'call': 'classify', 'media_type': None}, {'call': 'classify', 'media_type': ''}]
+        ws = [{'call': 'classify', 'media_type': None}, {'call': 'classify', 'media_type': ''},
+              # the regex source strings themselves (they sit in the same lists as the names)
+              {'call': 'classify', 'media_type': 'application/.*?\\+xml'}, {'call': 'classify', 'media_type': 'text\\/.*?\\+xml'},
+              {'call': 'classify', 'media_type': ' TEXT\\/.*?\\+XML '}, {'call': 'classify', 'media_type': 'text\\/.*?\\+xm'}]
         pre = ['', ' ', 'x', '\t\n']
         main = ['application/', 'text/', 'image/', 'Application/', 'TEXT/', '', 'text', 'applicationx/', 'text /']
         sub = ['xml', 'xml-dtd', 'xml-external-parsed-entity', 'html', 'css', 'plain', 'x+xml', '+xml', 'x+xm', 'x+xmlx',
@@ -287,11 +291,19 @@ class C20(Check):
     # -- generators: documents for the sniffer -----------------------------------------------------------
     def gen_decl(self, rng):
         """a well-formed XML 1.0 declaration with independent spelling choices"""
-        ws = lambda: rng.choice([' ', ' ', ' ', '  ', '\t', '\n', '\r\n', ' \n '])   # noqa: E731
-        eq = lambda: rng.choice(['=', '=', '=', ' =', '= ', ' = ', '\t=\n'])         # noqa: E731
+        # line feeds and spaces around '=' are legal but rare in the wild, and they are exactly the region of a
+        # listed finding: keep most declarations outside it so that the oracle sees them
+        if rng.random() < 0.2:
+            ws = lambda: rng.choice([' ', '  ', '\t', '\r', '\n', '\r\n', ' \n '])     # noqa: E731
+            eq = lambda: rng.choice(['=', ' =', '= ', ' = ', '\t=\n'])                  # noqa: E731
+            tl = ['', ' ', '\n']
+        else:
+            ws = lambda: rng.choice([' ', ' ', ' ', '  ', '\t', '\r'])                  # noqa: E731
+            eq = lambda: '='                                                           # noqa: E731
+            tl = ['', '', ' ']
         return decl(encoding=rng.choice(ENC_NAMES) if rng.random() < 0.75 else None,
                     q=rng.choice(['"', "'"]), s1=ws(), s2=ws(), eq=eq(), eqv=eq(),
-                    standalone=rng.choice([None, None, 'yes', 'no']), tail=rng.choice(['', '', ' ', '\n']),
+                    standalone=rng.choice([None, None, 'yes', 'no']), tail=rng.choice(tl),
                     version=rng.choice(['1.0', '1.0', '1.1']))
 
     def gen_body(self, rng):
@@ -407,7 +419,7 @@ class C20(Check):
         for _ in range(ctx.n(2500, 60000)):
             r = rng.random()
             cs = rng.choice([None, None] + ENC_NAMES)
-            mt = rng.choice(mts)
+            mt = rng.choice(mts) if rng.random() < 0.5 else rng.choice(['text/html', 'text/html', 'text/plain', 'application/xhtml+xml'])
             me = rng.choice([None, None] + ENC_NAMES)
             xr = rng.random()
             mr = rng.random()
@@ -596,12 +608,13 @@ class C20(Check):
                  'css': E._TEXT_UTF8, 'text': E._TEXT_TYPE, 'other': E._OTHER_TYPE}
         ctx.case(key=('classify', mt), nontrivial=cls != 'other', kind='classify:' + cls,
                  sample={'media_type': mt, 'class': cls, 'default': S.DEFAULTS[cls]})
+        k = KF_RELIT if S.region_regex_literal(mt) else None
         if pl['impl'][0] != str(codes[cls]):
             ctx.violate('media-type classification as documented (application/xml family, text/xml family, text/html, '
-                        'text/css, other text/*, other)', w, {'impl': pl['impl'][0], 'spec': cls, 'code': codes[cls]})
+                        'text/css, other text/*, other)', w, {'impl': pl['impl'][0], 'spec': cls, 'code': codes[cls]}, known=k)
         if pl['impl'][1] != opt(S.DEFAULTS[cls]):
             ctx.violate('media-type default encoding as documented (utf-8 / ascii / iso-8859-1 / utf-8 for text/css / none)',
-                        w, {'impl': pl['impl'][1], 'spec': S.DEFAULTS[cls]})
+                        w, {'impl': pl['impl'][1], 'spec': S.DEFAULTS[cls]}, known=k)
 
     def oracle_sniff(self, ctx, E, w, pl):
         d, form, pos, incl = w['doc'], w['form'], w.get('pos', 0), w.get('includeDefault', True)
